@@ -316,8 +316,15 @@ impl InferShapes for ReductionOp<'_> {
                 };
                 return Ok([out].into());
             };
-            resolve_axes(ndim, axes.iter()).map_err(|_| InferShapesError::IncorrectRank)?
-        } else if let Some(axes) = self.axes {
+            if axes.is_empty() {
+                // An empty `axes` reduces all dims, like a missing `axes`.
+                (0..ndim).collect()
+            } else {
+                resolve_axes(ndim, axes.iter()).map_err(|_| InferShapesError::IncorrectRank)?
+            }
+        } else if let Some(axes) = self.axes
+            && !axes.is_empty()
+        {
             resolve_axes(ndim, axes.iter()).map_err(|_| InferShapesError::IncorrectRank)?
         } else {
             // Missing `axes` reduces all dims.
